@@ -100,6 +100,9 @@ pub struct CaseStats {
     pub q_opt_both: u32,
     pub q_entry_absent_super: u32,
     pub q_hints: u32,
+    pub par_cases: u32,
+    pub par_nontrivial: u32,
+    pub par_mut_addresses: u64,
     pub excluded: BTreeMap<&'static str, u32>,
     pub op_counts: BTreeMap<&'static str, u32>,
     pub foreign: Option<(String, String)>,
@@ -163,7 +166,9 @@ fn mix(p: u32, i: u32) -> u32 {
     x ^= x >> 15;
     x = x.wrapping_mul(0x2C1B_3C6D);
     x ^= x >> 12;
-    x & 0x7fff_ffff
+    // payloads stay below 60000 so that, in serialized form, every number above 65536 is
+    // recognisably *not* a payload (the C11 screen for declared lengths relies on it)
+    (x & 0x7fff_ffff) % 60_000
 }
 
 macro_rules! fail {
@@ -192,6 +197,12 @@ impl<R: Reg> Interp<R> {
         };
         s.ensure(0);
         s
+    }
+
+    /// Forget per-step classification state after a world was swapped in from outside.
+    pub fn reset_tracking(&mut self) {
+        self.prev = (0..NSLOTS).map(|_| None).collect();
+        self.touched = [true; NSLOTS];
     }
 
     fn ensure(&mut self, w: usize) {
@@ -339,7 +350,7 @@ impl<R: Reg> Interp<R> {
                     NSel::Free => free,
                     NSel::FreePlus1 => free + 1,
                 }
-                .min(600);
+                .min(6000);
                 if self.excl.extend_smaller_than_free && n > 0 && n < free {
                     *self.stats.excluded.entry("extend_smaller_than_free").or_insert(0) += 1;
                     n = free;
@@ -538,6 +549,44 @@ impl<R: Reg> Interp<R> {
                     self.note_mutation_after_clone(*w);
                 }
             }
+            Op::ParQuery { w, q, pool, term, salt } => {
+                let pqs = R::par_queries();
+                if pqs.is_empty() {
+                    self.stats.noops += 1;
+                    return Ok(());
+                }
+                let qi = pqs[idx(*q, pqs.len())];
+                let meta = &R::queries()[qi];
+                let salt = if meta.mutates() && !term.short_circuit() { *salt } else { None };
+                let tp = crate::reg::pool(*pool as usize);
+                let s = self.slot(*w);
+                // classification: how many non-empty archetypes match, is one longer than a row?
+                let d = R::dump(&s.real);
+                let mut matching = 0;
+                let mut long = false;
+                for a in &d.archetypes {
+                    let mut mask = 0u32;
+                    for (i, b) in a.identifier.iter().enumerate() {
+                        mask |= (*b as u32) << (8 * i);
+                    }
+                    if a.length > 0 && meta.matches(mask) {
+                        matching += 1;
+                        long |= a.length > 1;
+                    }
+                }
+                let out = R::run_par_query(&mut s.real, qi, *term, salt, tp);
+                if let Some(sh) = s.shadow.as_mut() {
+                    R::run_par_query(sh, qi, *term, salt, tp);
+                }
+                self.stats.par_cases += 1;
+                if matching >= 2 && long && crate::reg::POOL_SIZES[*pool as usize % crate::reg::POOL_SIZES.len()] >= 2 {
+                    self.stats.par_nontrivial += 1;
+                }
+                self.check_par_query(*w, meta, *term, salt, out)?;
+                if salt.is_some() {
+                    self.note_mutation_after_clone(*w);
+                }
+            }
             Op::EntryQuery { w, t, q, salt } => {
                 let metas = R::queries();
                 let qi = idx(*q, metas.len());
@@ -668,7 +717,7 @@ impl<R: Reg> Interp<R> {
             Op::ResSet { w, which, p } => {
                 let which = *which as usize % 4;
                 let s = self.slot(*w);
-                let pv = R::res_norm(which, *p & 0x7fff_ffff);
+                let pv = R::res_norm(which, *p % 60_000);
                 R::res_set(&mut s.real, which, pv);
                 if let Some(sh) = s.shadow.as_mut() {
                     R::res_set(sh, which, pv);
@@ -850,13 +899,24 @@ impl<R: Reg> Interp<R> {
     }
 
     fn check_query(&mut self, w: u8, meta: &QueryMeta, mode: QMode, salt: Option<u32>, out: &QueryOut) -> FResult {
+        self.check_query_ex(w, meta, mode, salt, out, false, &["C03"])
+    }
+
+    /// `restrict`: only the matching entities whose (pre-write) values satisfy `row_pred` are
+    /// expected among the results; writes are still expected on every matching entity.
+    fn check_query_ex(&mut self, w: u8, meta: &QueryMeta, mode: QMode, salt: Option<u32>, out: &QueryOut, restrict: bool, props: &'static [&'static str]) -> FResult {
         let step = self.step;
         self.stats.q_cases += 1;
         let s = self.slot(w);
-        let expected: Vec<Id> = s.model.live.iter().copied().filter(|id| meta.matches(Model::mask(&s.model.ents[id]))).collect();
+        let all_matching: Vec<Id> = s.model.live.iter().copied().filter(|id| meta.matches(Model::mask(&s.model.ents[id]))).collect();
+        let expected: Vec<Id> = if restrict {
+            all_matching.iter().copied().filter(|id| { let comps = &s.model.ents[id]; let cols: Vec<(u8, Option<u32>)> = meta.views.iter().map(|(c, _)| (*c, comps[*c as usize].as_ref().map(|m| m.payload))).collect(); crate::reg::row_pred(&cols) }).collect()
+        } else {
+            all_matching.clone()
+        };
         let total = s.model.live.len();
         let what = format!("{} ({:?})", meta.text, mode);
-        let c03 = |oracle: &'static str, msg: String| Err(Fail { props: &["C03"], oracle, msg, step });
+        let c03 = |oracle: &'static str, msg: String| Err(Fail { props, oracle, msg, step });
         if out.rows.len() != expected.len() {
             return c03("query-count", format!("{what}: {} results, {} live entities match (of {total})", out.rows.len(), expected.len()));
         }
@@ -887,6 +947,18 @@ impl<R: Reg> Interp<R> {
             }
             for row in &out.rows {
                 self.check_row(w, row.id, meta.views, salt, row, &what)?;
+            }
+            if let (true, Some(salt)) = (restrict, salt) {
+                for id in all_matching.iter().filter(|id| !exp.contains(id)) {
+                    let comps = self.slot(w).model.ents.get_mut(id).unwrap();
+                    for (c, k) in meta.views {
+                        if k.mutable() {
+                            if let Some(m) = comps[*c as usize].as_mut() {
+                                m.payload = R::norm(*c as usize, mutate(m.payload, salt));
+                            }
+                        }
+                    }
+                }
             }
         } else {
             // no identifier in the views: compare as multisets of values, then apply writes by serial
@@ -935,7 +1007,7 @@ impl<R: Reg> Interp<R> {
             }
             if let Some(salt) = salt {
                 // every matching entity's mutable viewed components are rewritten
-                for id in &expected {
+                for id in &all_matching {
                     let comps = self.slot(w).model.ents.get_mut(id).unwrap();
                     for (c, k) in meta.views {
                         if k.mutable() {
@@ -971,6 +1043,89 @@ impl<R: Reg> Interp<R> {
             }
         }
         Ok(())
+    }
+
+    fn check_par_query(&mut self, w: u8, meta: &QueryMeta, term: PTerm, salt: Option<u32>, out: ParOut) -> FResult {
+        let step = self.step;
+        const P: &[&str] = &["C09"];
+        let what = format!("par_query {} ({term:?})", meta.text);
+        let s = self.slot(w);
+        let matching: Vec<Id> = s.model.live.iter().copied().filter(|id| meta.matches(Model::mask(&s.model.ents[id]))).collect();
+        let cols_of = |s: &Slot<R>, id: &Id| -> Vec<(u8, Option<u32>)> { let comps = &s.model.ents[id]; meta.views.iter().map(|(c, _)| (*c, comps[*c as usize].as_ref().map(|m| m.payload))).collect() };
+        let satisfying: Vec<Id> = matching.iter().copied().filter(|id| crate::reg::row_pred(&cols_of(s, id))).collect();
+        match term {
+            PTerm::ForEach | PTerm::Collect | PTerm::FoldReduce | PTerm::System | PTerm::FilterCollect => {
+                // no two results may hand out mutable access to the same value
+                let mut addrs = HashSet::new();
+                for r in &out.rows {
+                    for ((_, k), (c, o)) in meta.views.iter().zip(&r.cols) {
+                        if let (true, Some((_, after))) = (k.mutable(), o) {
+                            // zero-sized values legitimately share one address
+                            if R::comp_kind(*c as usize).0 != ledger::Kind::Zst {
+                                self.stats.par_mut_addresses += 1;
+                                if !addrs.insert((c, after.addr)) {
+                                    return Err(Fail { props: P, oracle: "par-aliasing", msg: format!("{what}: two results give mutable access to the same value of component {c} (address {:#x})", after.addr), step });
+                                }
+                            }
+                        }
+                    }
+                }
+                let q = QueryOut { rows: out.rows, hints: Vec::new() };
+                self.check_query_ex(w, meta, QMode::Fold, salt, &q, term == PTerm::FilterCollect, P)
+            }
+            PTerm::Count => {
+                let got = out.count.unwrap_or(usize::MAX);
+                if got != matching.len() {
+                    return Err(Fail { props: P, oracle: "par-count", msg: format!("{what}: count() = {got}, {} live entities match", matching.len()), step });
+                }
+                if let Some(salt) = salt {
+                    for id in &matching {
+                        let comps = self.slot(w).model.ents.get_mut(id).unwrap();
+                        for (c, k) in meta.views {
+                            if k.mutable() {
+                                if let Some(m) = comps[*c as usize].as_mut() {
+                                    m.payload = R::norm(*c as usize, mutate(m.payload, salt));
+                                }
+                            }
+                        }
+                    }
+                }
+                Ok(())
+            }
+            PTerm::FindAny => match out.found.unwrap_or(None) {
+                None if satisfying.is_empty() => Ok(()),
+                None => Err(Fail { props: P, oracle: "par-find", msg: format!("{what}: find_any found nothing although {} matching entities satisfy the predicate", satisfying.len()), step }),
+                Some(row) => {
+                    if !crate::reg::qrow_pred(&row) {
+                        return Err(Fail { props: P, oracle: "par-find", msg: format!("{what}: find_any returned a row that does not satisfy the predicate"), step });
+                    }
+                    if meta.has_id {
+                        let id = row.id.unwrap();
+                        if !satisfying.contains(&id) {
+                            return Err(Fail { props: P, oracle: "par-find", msg: format!("{what}: find_any returned {id:?}, which is not a matching entity satisfying the predicate"), step });
+                        }
+                        self.check_row(w, Some(id), meta.views, None, &row, &what).map_err(|mut f| {
+                            f.props = P;
+                            f
+                        })
+                    } else {
+                        let got: Vec<(u8, Option<u32>)> = row.cols.iter().map(|(c, o)| (*c, o.map(|(b, _)| b.payload))).collect();
+                        let s = self.slot(w);
+                        if !satisfying.iter().any(|id| cols_of(s, id) == got) {
+                            return Err(Fail { props: P, oracle: "par-find", msg: format!("{what}: find_any returned values {got:?} that no matching entity holds"), step });
+                        }
+                        Ok(())
+                    }
+                }
+            },
+            PTerm::Any => {
+                let got = out.any.unwrap_or(false);
+                if got != !satisfying.is_empty() {
+                    return Err(Fail { props: P, oracle: "par-any", msg: format!("{what}: any() = {got} but {} matching entities satisfy the predicate", satisfying.len()), step });
+                }
+                Ok(())
+            }
+        }
     }
 
     fn check_entry_query(&mut self, w: u8, id: Id, meta: &QueryMeta, salt: Option<u32>, got: Option<Option<QRow>>) -> FResult {
